@@ -38,8 +38,21 @@ PARTIAL = ['clause "a well-formed document to which a single unmatched delimiter
            'group chain inside a $ $ / $$ $$ formula or macro argument, opening delimiters inserted in a $ $ / $$ $$ formula, every case '
            'where a side condition of these theorems fails (remaining items that contain a formula and would be read in the '
            'other math mode, $ directly before $, environments with arguments), insertion points inside an item '
-           '(between the tokens of a macro call, inside whitespace), documents outside the core grammar (environments, '
-           'optional / star arguments, specials, verbatim). Proved in Coq for every string: '
+           '(between the tokens of a macro call, inside whitespace). Documents of the EXTENDED grammar of C02 '
+           '(Doc/DocGrammar2.v: environments with arguments and math-mode bodies, specials, optional / star / '
+           'single-token / verbatim arguments, verbatim macros and environments) are covered for stray CLOSING tokens '
+           'only: C05_fault_closing2_partial / C05_fault_closing2_doc_partial (a }, \\), \\] or \\end{x} at an item '
+           'boundary of the top-level body, resp. appended to a whole document), C05_fault_closing2_nested_partial (at an '
+           'item boundary of a body reached through groups, formulas of all four kinds and environment bodies - environments '
+           'with arguments included -, unless it is the closing delimiter of the innermost construct), '
+           'C05_fault_closing2_delimited_arg_partial (in the body of a delimited argument [ ... ] of a macro call written in '
+           'such a body): error of the matching raise site located AT the token, reader right after it, whatever follows; '
+           'hypothesis: the left context and the items in front of the token are well formed IN FRONT OF everything that is '
+           'written after them (the side conditions of the extended grammar are evaluated against the follow string; the rest '
+           'of the input is otherwise arbitrary; C05_fault_closing2_doc_ws_partial: ok_doc2 of the document suffices when it ends with '
+           'whitespace and no specials sequence contains a backslash / closing brace). Opening delimiters in extended documents, paths through macro arguments / '
+           'specials arguments / delimited arguments, and every other fault position of extended documents: correspondence + '
+           'oracle only. Proved in Coq for every string: '
            'C05_no_other_exception(_run, _any_fuel), C05_result_shape, C05_errors_located(_top), C05_error_line_col',
            'C05_no_other_exception allows OutOfFuel as an outcome of the model: termination is a theorem of C06, not of C05',
            'the lineno/colno annotation of _ParsingContext.__exit__ is not part of the parser model (errors carry only pe_pos): '
